@@ -50,7 +50,15 @@ _add(
     "fresh",
     ew=True,
 )
-_add("sign floor ceil round isinf isnan isfinite eq ne lt le gt ge", "fresh", ew=True, idx=True)
+_add(
+    "rsqrt sinh cosh asinh acosh atanh asin acos log2 log10 logaddexp logaddexp2 hypot frac trunc fmod remainder "
+    "copysign nan_to_num xlogy xlog1py entr expit logit ndtr log_ndtr ndtri erfinv erfc erfcx lgamma digamma "
+    "i0 i0e sinc logsigmoid hardtanh softsign silu gelu selu celu mish hardswish hardsigmoid threshold "
+    "addcmul addcdiv maximum minimum fmax fmin clamp_min clamp_max clip float_power",
+    "fresh",
+    ew=True,
+)
+_add("sign sgn floor ceil round isinf isnan isfinite eq ne lt le gt ge heaviside signbit isclose", "fresh", ew=True, idx=True)
 _add("ones_like zeros_like empty_like full_like", "like", ew=True)
 _add("rand_like randn_like", "like", ew=True, rng=True)
 # stochastic unless told otherwise: F.dropout(x, p, training=True) draws a fresh mask per call
@@ -63,12 +71,18 @@ _add("new_zeros new_ones new_empty new_full new_tensor", "like")
 # structural, allocating
 _add("softmax log_softmax cumsum glu", "fresh", red=False, axis=True)
 _add("cat stack pad gather index_select masked_select repeat repeat_interleave tile diag flip roll", "fresh")
-_add("linear matmul mm bmm mv ger outer lu_solve addmv addmm", "fresh", same=True)
+_add("linear matmul mm bmm mv ger outer lu_solve addmv addmm addr baddbmm addbmm einsum tensordot kron cross dot vdot inner chain_matmul multi_dot bilinear", "fresh", same=True)
+_add("normalize cosine_similarity pairwise_distance cdist cumprod logcumsumexp cummax cummin diff trapz trapezoid", "fresh")
+_add("solve cholesky cholesky_solve cholesky_inverse pinv matrix_power matrix_exp vector_norm matrix_norm det logdet inv triangular_solve", "fresh")
+_add("var_mean std_mean aminmax", "tuple", n=2, red=True)
+_add("lu_factor eigh svd slogdet", "tuple", n=2)
+_add("bucketize searchsorted count_nonzero", "fresh", idx=True)
+_add("scatter scatter_add index_add index_copy index_fill masked_fill masked_scatter take take_along_dim where tril triu diag_embed block_diag", "fresh")
 _add("solve_triangular inverse", "fresh")
 _add("argsort argmax argmin nonzero", "fresh", idx=True)
 _add("sum mean var std logsumexp prod norm all any amax amin", "fresh", red=True)
 _add("min max", "fresh", red=True)  # 1-arg: reduction; 2-tensor-arg: elementwise (decided at the call)
-_add("slogdet lu qr", "tuple", n=2)
+_add("lu qr", "tuple", n=2)
 _add("multinomial", "fresh", rng=True, idx=True)
 # constructors
 _add("zeros ones eye arange linspace tensor Tensor empty full", "ctor")
